@@ -55,6 +55,29 @@ ParamCases   == { DeclCase("param", "def f(" \o Written(b, w) \o " x) { }", "x",
               \cup { DeclCase("param", "def f(qubit x) { }", "x", Exp("qubit", NoW, FALSE)), DeclCase("param", "def f(qubit[4] x) { }", "x", Exp("qubit", [d |-> "4", fits |-> TRUE], FALSE)) }
 (* designator given by a const identifier *)
 ConstIdCases == { DeclCase("constid", "const int n = " \o w.d \o "; " \o Written(b, [d |-> "n", fits |-> TRUE]) \o " x;", "x", Exp(b, w, FALSE)) : b \in {"int", "float", "bit", "qubit"}, w \in WSet }
+(* ... where the constant is declared in a non-global scope (block / subroutine body) and used in the same  *)
+(* scope or in one nested in it, or declared globally and used inside the scope                              *)
+ScopePre == {"if (true) { ", "while (true) { ", "def f() { ", "for int i in [0:1] { ", "if (false) { } else { "}
+ScopedW == { w \in WSet : w.d \in {"1", "8", "2147483648", "4294967296"} }
+ScopedConstIdCases ==
+     { DeclCase("constid-in:" \o pre, pre \o "const int n = " \o w.d \o "; " \o Written(b, [d |-> "n", fits |-> TRUE]) \o " x; }", "x", Exp(b, w, FALSE)) :
+         pre \in ScopePre, b \in {"int", "float", "bit", "angle"}, w \in ScopedW }
+  \cup { DeclCase("constid-nested:" \o pre, pre \o "const int n = " \o w.d \o "; if (true) { " \o Written(b, [d |-> "n", fits |-> TRUE]) \o " x; } }", "x", Exp(b, w, FALSE)) :
+         pre \in ScopePre, b \in {"int", "bit"}, w \in ScopedW }
+  \cup { DeclCase("constid-outer:" \o pre, "const int n = " \o w.d \o "; " \o pre \o Written(b, [d |-> "n", fits |-> TRUE]) \o " x; }", "x", Exp(b, w, FALSE)) :
+         pre \in ScopePre, b \in {"int", "bit"}, w \in ScopedW }
+  \cup { DeclCase("constid-param", "def f(int a) { const int n = " \o w.d \o "; " \o Written(b, [d |-> "n", fits |-> TRUE]) \o " x; }", "x", Exp(b, w, FALSE)) :
+         b \in {"int", "bit"}, w \in ScopedW }
+(* two constants of the same name in nested scopes, both used as designator with the SAME spelling: each use *)
+(* sees the innermost one that is in scope at that point                                                    *)
+W4 == [d |-> "4", fits |-> TRUE]   W8b == [d |-> "8", fits |-> TRUE]
+ShadowConstIdCases ==
+     { DeclCase("constid-shadow-inner:" \o pre, "const int n = 4; " \o Written(b, [d |-> "n", fits |-> TRUE]) \o " y; " \o pre \o "const int n = 8; "
+                  \o Written(b, [d |-> "n", fits |-> TRUE]) \o " x; }", "x", Exp(b, W8b, FALSE)) : pre \in ScopePre, b \in {"int", "bit", "float"} }
+  \cup { DeclCase("constid-shadow-after:" \o pre, "const int n = 4; " \o pre \o "const int n = 8; " \o Written(b, [d |-> "n", fits |-> TRUE]) \o " y; } "
+                  \o Written(b, [d |-> "n", fits |-> TRUE]) \o " x;", "x", Exp(b, W4, FALSE)) : pre \in ScopePre, b \in {"int", "bit", "float"} }
+  \cup { DeclCase("constid-siblings", "if (true) { const int n = 4; " \o Written(b, [d |-> "n", fits |-> TRUE]) \o " y; } if (true) { const int n = 8; "
+                  \o Written(b, [d |-> "n", fits |-> TRUE]) \o " x; }", "x", Exp(b, W8b, FALSE)) : b \in {"int", "bit", "float"} }
 (* scope kinds: the same declaration inside a block / subroutine body *)
 ScopeCases   == { DeclCase("scope:" \o pre, pre \o Written(b, w) \o " x; }", "x", Exp(b, w, FALSE)) :
                     pre \in {"if (true) { ", "while (true) { ", "def f() { ", "for int i in [0:1] { "}, b \in {"int", "bit", "float"}, w \in {NoW, [d |-> "16", fits |-> TRUE], [d |-> "4294967296", fits |-> FALSE]} }
@@ -63,6 +86,11 @@ BadDesignators == { [t |-> "-1", why |-> "negative"], [t |-> "2.5", why |-> "non
                     [t |-> "true", why |-> "non-integer"], [t |-> "2+2", why |-> "expression"] }
 BadCases     == { [form |-> "bad:" \o bd.why, text |-> "int m = 8; " \o b \o "[" \o bd.t \o "] x;", sym |-> "x",
                    expect |-> [type |-> "", fits |-> FALSE, wd |-> bd.t]] : b \in {"int", "bit", "qubit", "float"}, bd \in BadDesignators }
+
+(* ... also when the negative number reaches the designator through a constant, whatever the declared width of the   *)
+(* constant (the initializer is then stored with or without a cast)                                                  *)
+NegConstCases == { [form |-> "bad:negative-const", text |-> "const " \o ct \o " n = -3; " \o b \o "[n] x;", sym |-> "x",
+                    expect |-> [type |-> "", fits |-> FALSE, wd |-> "n"]] : ct \in {"int", "int[8]", "int[32]", "int[64]", "int[128]"}, b \in {"int", "bit", "qubit", "float"} }
 
 (* gate and subroutine signatures up to 4 parameters and 4 qubits *)
 Ps == <<"a", "b", "c", "d">>    Qs == <<"q", "r", "s", "t">>
@@ -152,18 +180,74 @@ MeasRows == { [stmt |-> st, form |-> "measure", pre |-> "qubit q; ", text |-> "q
                target |-> Rendered(T.b, T.w, FALSE), value |-> "Bit(False)", must |-> (T.b # "bit"), tb |-> T.b, vb |-> "bit", tw |-> T.w.d, vw |-> ""] :
                st \in {"decl", "assign"}, T \in ScalarTypes }
 
+(* bit registers: target bit[N], value a register variable / const register / measured qubit register /     *)
+(* bit string literal of length M.  Lengths differ => diagnosed or explicitly cast to exactly bit[N].        *)
+RegLens == {"1", "2", "3", "8"}
+Zeros(d) == CASE d = "1" -> "0" [] d = "2" -> "01" [] d = "3" -> "011" [] d = "8" -> "01100101"
+RegForm(f, m) ==
+  CASE f = "var"      -> [pre |-> "bit[" \o m \o "] v; ", e |-> "v", inner |-> "BitArray(D1(" \o m \o "), False)"]
+    [] f = "constvar" -> [pre |-> "const bit[" \o m \o "] v = \"" \o Zeros(m) \o "\"; ", e |-> "v", inner |-> "BitArray(D1(" \o m \o "), True)"]
+    [] f = "measure"  -> [pre |-> "qubit[" \o m \o "] q; ", e |-> "measure q", inner |-> "BitArray(D1(" \o m \o "), False)"]
+    [] f = "lit"      -> [pre |-> "", e |-> "\"" \o Zeros(m) \o "\"", inner |-> "BitArray(D1(" \o m \o ")"]
+    [] f = "call"     -> [pre |-> "def f() -> bit[" \o m \o "] { } ", e |-> "f()", inner |-> "BitArray(D1(" \o m \o "), True)"]
+RegRows == { LET fm == RegForm(f, m)
+                 stmt == IF st = "decl" THEN (IF tc THEN "const " ELSE "") \o "bit[" \o n \o "] x = " \o fm.e \o ";" ELSE "bit[" \o n \o "] x; x = " \o fm.e \o ";"
+             IN [stmt |-> st, form |-> f, pre |-> fm.pre, text |-> fm.pre \o stmt, target |-> "BitArray(D1(" \o n \o "), " \o CStr(tc) \o ")", value |-> fm.inner,
+                 must |-> FALSE, tb |-> "bit[]", vb |-> "bit[]", tw |-> n, vw |-> m] :
+             st \in {"decl", "assign"}, tc \in BOOLEAN, n \in RegLens, m \in RegLens, f \in {"var", "constvar", "measure", "lit", "call"} }
+RegRowsOK == { r \in RegRows : ~(r.stmt = "assign" /\ r.target \in {"BitArray(D1(" \o n \o "), True)" : n \in RegLens}) }
+
+(* the common type of two numeric operand types (requirement level): the type of the operand of the higher   *)
+(* kind (int, uint < float < complex); for equal kinds the greater width, an unwritten width being the       *)
+(* greatest.  int with uint has no common type in this front end (recorded finding), "" = not constrained.   *)
+MaxW(a, b) == IF a.d = "" \/ b.d = "" THEN NoW ELSE IF WNum(a) >= WNum(b) THEN a ELSE b
+Common(A, B) == IF A.b = B.b THEN Rendered(A.b, MaxW(A.w, B.w), FALSE)
+                ELSE IF Rank(A.b) > Rank(B.b) THEN Rendered(A.b, A.w, FALSE)
+                ELSE IF Rank(B.b) > Rank(A.b) THEN Rendered(B.b, B.w, FALSE) ELSE ""
 (* arithmetic expressions: every operator over every pair of numeric operand types *)
 ArithOps == {"+", "-", "*", "/", "%", "&", "|", "^", "<<", ">>"}
 NumTypes == { T \in ScalarTypes : Numeric(T) }
 ArithRows == { [op |-> o, text |-> Written(A.b, A.w) \o " a; " \o Written(B.b, B.w) \o " b; a " \o o \o " b;",
-                lt |-> Rendered(A.b, A.w, FALSE), rt |-> Rendered(B.b, B.w, FALSE)] : o \in ArithOps, A \in NumTypes, B \in NumTypes }
+                lt |-> Rendered(A.b, A.w, FALSE), rt |-> Rendered(B.b, B.w, FALSE), lform |-> "var", rform |-> "var", common |-> Common(A, B),
+                intdiv |-> (o = "/" /\ Rank(A.b) = 1 /\ Rank(B.b) = 1)] : o \in ArithOps, A \in NumTypes, B \in NumTypes }
 
-C09Cases == PlainCases \cup ConstCases \cup InitCases \cup QubitCases \cup IOCases \cup ForCases \cup ParamCases \cup ConstIdCases \cup ScopeCases \cup BadCases
+(* the same with the operands given in other forms: explicit cast, const variable, call, literal.  The     *)
+(* statement is parenthesised: a statement that starts with a type keyword is a declaration.              *)
+W128 == [d |-> "128", fits |-> TRUE]
+WNum2(w) == IF w.d = "128" THEN 128 ELSE WNum(w)
+MaxW2(a, b) == IF a.d = "" \/ b.d = "" THEN NoW ELSE IF WNum2(a) >= WNum2(b) THEN a ELSE b
+Common2(A, B) == IF A.b = B.b THEN Rendered(A.b, MaxW2(A.w, B.w), FALSE)
+                 ELSE IF Rank(A.b) > Rank(B.b) THEN Rendered(A.b, A.w, FALSE)
+                 ELSE IF Rank(B.b) > Rank(A.b) THEN Rendered(B.b, B.w, FALSE) ELSE ""
+Operand(f, T, nm) ==
+  CASE f = "var"      -> [pre |-> Written(T.b, T.w) \o " " \o nm \o "; ", e |-> nm, ty |-> Rendered(T.b, T.w, FALSE), T |-> T]
+    [] f = "constvar" -> [pre |-> "const " \o Written(T.b, T.w) \o " " \o nm \o " = " \o LitOf(T.b) \o "; ", e |-> nm, ty |-> Rendered(T.b, T.w, TRUE), T |-> T]
+    [] f = "cast"     -> [pre |-> "int k" \o nm \o "; ", e |-> Written(T.b, T.w) \o "(k" \o nm \o ")", ty |-> Rendered(T.b, T.w, TRUE), T |-> T]
+    [] f = "call"     -> [pre |-> "def f" \o nm \o "() -> " \o Written(T.b, T.w) \o " { } ", e |-> "f" \o nm \o "()", ty |-> Rendered(T.b, T.w, TRUE), T |-> T]
+    [] f = "lit"      -> IF T.b = "float" THEN [pre |-> "", e |-> "2.5", ty |-> "Float(Some(64), True)", T |-> [b |-> "float", w |-> W64]]
+                                          ELSE [pre |-> "", e |-> "5", ty |-> "Int(Some(128), True)", T |-> [b |-> "int", w |-> W128]]
+FormPairs == { <<"cast", "var">>, <<"var", "cast">>, <<"constvar", "var">>, <<"var", "call">>, <<"cast", "cast">>, <<"constvar", "constvar">> }
+LitTypes == { [b |-> "int", w |-> NoW], [b |-> "float", w |-> NoW] }
+ArithFormRows ==
+     { LET l == Operand(fp[1], A, "a")  r == Operand(fp[2], B, "b")
+       IN [op |-> o, text |-> l.pre \o r.pre \o "(" \o l.e \o " " \o o \o " " \o r.e \o ");", lt |-> l.ty, rt |-> r.ty, lform |-> fp[1], rform |-> fp[2],
+           common |-> Common2(A, B), intdiv |-> (o = "/" /\ Rank(A.b) = 1 /\ Rank(B.b) = 1)] :
+       o \in ArithOps, A \in NumTypes, B \in NumTypes, fp \in FormPairs }
+  \cup { LET l == Operand("var", A, "a")  r == Operand("lit", L, "b")
+       IN [op |-> o, text |-> l.pre \o "(" \o l.e \o " " \o o \o " " \o r.e \o ");", lt |-> l.ty, rt |-> r.ty, lform |-> "var", rform |-> "lit",
+           common |-> Common2(A, r.T), intdiv |-> (o = "/" /\ Rank(A.b) = 1 /\ Rank(r.T.b) = 1)] :
+       o \in ArithOps, A \in NumTypes, L \in LitTypes }
+  \cup { LET l == Operand("lit", L, "a")  r == Operand("var", B, "b")
+       IN [op |-> o, text |-> r.pre \o "(" \o l.e \o " " \o o \o " " \o r.e \o ");", lt |-> l.ty, rt |-> r.ty, lform |-> "lit", rform |-> "var",
+           common |-> Common2(l.T, B), intdiv |-> (o = "/" /\ Rank(l.T.b) = 1 /\ Rank(B.b) = 1)] :
+       o \in ArithOps, B \in NumTypes, L \in LitTypes }
+
+C09Cases == PlainCases \cup ConstCases \cup InitCases \cup QubitCases \cup IOCases \cup ForCases \cup ParamCases \cup ConstIdCases \cup ScopedConstIdCases \cup ShadowConstIdCases \cup ScopeCases \cup BadCases \cup NegConstCases
 ASSUME \A x \in C09Cases : PrintT(<<"DECL", ToJson(x)>>)
 ASSUME \A x \in GateCases \cup DefCases \cup DefRetCases : PrintT(<<"SIG", ToJson(x)>>)
 ASSUME \A x \in CollisionCases : PrintT(<<"LISTING", ToJson(x)>>)
-ASSUME \A x \in RowsOK \cup LitRows \cup MeasRows : PrintT(<<"ROW", ToJson(x)>>)
-ASSUME \A x \in ArithRows : PrintT(<<"ARITH", ToJson(x)>>)
+ASSUME \A x \in RowsOK \cup LitRows \cup MeasRows \cup RegRowsOK : PrintT(<<"ROW", ToJson(x)>>)
+ASSUME \A x \in ArithRows \cup ArithFormRows : PrintT(<<"ARITH", ToJson(x)>>)
 
 VARIABLE v
 Init == v = 0
